@@ -591,13 +591,33 @@ func genLeaf(r *rand.Rand, s *schema, allowSub bool) pred {
 		n := 1 + r.IntN(4)
 		var l []string
 		for i := 0; i < n; i++ {
-			l = append(l, s.near(r, c).lit())
+			if r.IntN(3) == 0 {
+				l = append(l, k()) // literal or parameter
+			} else {
+				l = append(l, s.near(r, c).lit())
+			}
+		}
+		class := "in"
+		if r.IntN(3) == 0 {
+			// a NULL member (literal, or a parameter bound to nil) anywhere in the list
+			m := "NULL"
+			if r.IntN(3) == 0 {
+				if s.Params == nil {
+					s.Params = map[string]interface{}{}
+				}
+				name := fmt.Sprintf("p%d", len(s.Params)+1)
+				s.Params[name] = nil
+				m = "@" + name
+			}
+			at := r.IntN(len(l) + 1)
+			l = append(l[:at], append([]string{m}, l[at:]...)...)
+			class = "in-with-null"
 		}
 		not := ""
 		if r.IntN(4) == 0 {
 			not = "NOT "
 		}
-		return pred{fmt.Sprintf("%s %sIN (%s)", col, not, strings.Join(l, ", ")), "in" + on, c}
+		return pred{fmt.Sprintf("%s %sIN (%s)", col, not, strings.Join(l, ", ")), class + on, c}
 	case w < 69: // IS NULL
 		if r.IntN(2) == 0 {
 			return pred{col + " IS NULL", "isnull" + on, c}
